@@ -90,6 +90,7 @@ func init() {
 	}
 	stubs["(*bytes.Buffer).Write"] = func(e *Exec, fr *Frame, fn *ssa.Function, a []Value) Value {
 		p := a[0].(Ptr)
+		e.bufTouch(p, true)
 		key := e.bufKey(p)
 		cur := e.bufGet(p)
 		switch b := a[1].(type) {
@@ -108,4 +109,38 @@ func init() {
 		e.unsupported("bytes.Buffer.Write of %T", a[1])
 		return nil
 	}
+}
+
+// civilParts: the calendar date of an abstract time, when it is known: a
+// concrete instant (computed by package time) or local midnight of a symbolic
+// civil date (the arguments of the civil(y,m,d) term).
+func (e *Exec) civilParts(t TimeV) (y, m, d *Term, ok bool) {
+	tf := e.tf
+	if t.Sec.Op == "int" {
+		l := time.UTC
+		if t.Loc != nil {
+			l = t.Loc.Aux.(*time.Location)
+		}
+		tt := time.Unix(t.Sec.I.Int64(), 0).In(l)
+		return tf.Int(int64(tt.Year())), tf.Int(int64(tt.Month())), tf.Int(int64(tt.Day())), true
+	}
+	if t.Sec.Op == "uf" && len(t.Sec.Args) == 3 && t.Sec.S == "civil_"+sanitize(e.locName(t.Loc)) {
+		return t.Sec.Args[0], t.Sec.Args[1], t.Sec.Args[2], true
+	}
+	return nil, nil, nil, false
+}
+
+func init() {
+	part := func(i int, name string) {
+		stubs["(time.Time)."+name] = func(e *Exec, fr *Frame, fn *ssa.Function, a []Value) Value {
+			y, m, d, ok := e.civilParts(a[0].(TimeV))
+			if !ok {
+				e.unsupported("Time.%s of a symbolic instant", name)
+			}
+			return []*Term{y, m, d}[i]
+		}
+	}
+	part(0, "Year")
+	part(1, "Month")
+	part(2, "Day")
 }
